@@ -15,7 +15,7 @@ Alphabet ==
     \cup {[t |-> "proterr"]}
     \cup {[t |-> "pin", v |-> v] : v \in {"none", "required", "bad"}}
     \cup {[t |-> "accreq"]}
-    \cup {[t |-> "acc", id |-> id] : id \in {"A", "B", "empty", "missing", "illtyped"}}
+    \cup {[t |-> "acc", id |-> id] : id \in {"A", "B", "a", "empty", "missing", "illtyped"}}     \* "a": the id A in another letter case - a different id
     \cup {[t |-> "close", ph |-> ph] : ph \in {"announce", "confirm", "other"}}
     \cup {[t |-> "data"], [t |-> "databad"], [t |-> "garbage"], [t |-> "unknown"]}
 '''
